@@ -162,6 +162,12 @@ def gen(rng, index, tier):
     case['user_seed'] = rng.getrandbits(32)
     case['last_ops'] = rng.choice([None, 0, 3, 10])
     case['use_debug_file'] = rng.random() < 0.9
+    if rng.random() < 0.12:
+        # a session armed BEFORE the run through the handler's own command interface (skip N / step issued at op 0) and
+        # handed to the interpreter's entry point; half of them with no breakpoint at all
+        case['pre_armed'] = rng.choice([1, 1, 2, 3, 5, rng.randint(1, max(1, obs['model_ops']))])
+        if rng.random() < 0.5:
+            case['bp'] = {'addresses': [], 'labels': [], 'contains': []}
     return case
 
 
@@ -201,6 +207,8 @@ class SimUser:
         self.pending_read = None
         self.quit_at = None
         self.issued = []
+        if case.get('pre_armed') is not None:
+            self.armed = case['pre_armed']      # the session was armed (skip N / step at op 0) before the run began
         self.advance()
 
     # ---- protocol: run the model to the next expected pause
@@ -536,11 +544,21 @@ def run(case):
     try:
         with contextlib.redirect_stdout(sink):
             try:
-                st = flipjump.debug(path, dbg, breakpoints_addresses=set(case['bp']['addresses']) or None,
-                                    breakpoints=set(case['bp']['labels']) or None,
-                                    breakpoints_contains=set(case['bp']['contains']) or None,
-                                    io_device=rdev, print_time=False, print_termination=False,
-                                    last_ops_debugging_list_length=case['last_ops'])
+                if case.get('pre_armed') is not None:
+                    from flipjump.interpreter import fjm_run
+                    handler = bpmod.get_breakpoint_handler(dbg, set(case['bp']['addresses']) or None,
+                                                           set(case['bp']['labels']) or None,
+                                                           set(case['bp']['contains']) or None)
+                    n = case['pre_armed']
+                    handler.apply_debug_action(('step', 0) if n == 1 and case['user_seed'] & 1 else ('skip', n), 0)
+                    st = fjm_run.run(path, io_device=rdev, print_time=False, breakpoint_handler=handler,
+                                     last_ops_debugging_list_length=case['last_ops'])
+                else:
+                    st = flipjump.debug(path, dbg, breakpoints_addresses=set(case['bp']['addresses']) or None,
+                                        breakpoints=set(case['bp']['labels']) or None,
+                                        breakpoints_contains=set(case['bp']['contains']) or None,
+                                        io_device=rdev, print_time=False, print_termination=False,
+                                        last_ops_debugging_list_length=case['last_ops'])
                 outcome = ('term', str(st.termination_cause), st.memory_error_address, st.op_counter)
             except kernel.WatchdogTimeout:
                 raise
@@ -592,7 +610,9 @@ def run(case):
                   'issued': list(user.issued)})
         violations.append(v)
     probes = {'pauses': user.pauses, 'prompts': user.prompts, f"w{case['w']}": 1,
-              'sessions_with_pause': 1 if user.pauses else 0, 'quit_sessions': 1 if user.quit_at is not None else 0}
+              'sessions_with_pause': 1 if user.pauses else 0, 'quit_sessions': 1 if user.quit_at is not None else 0,
+              'pre_armed_sessions': 1 if case.get('pre_armed') is not None else 0,
+              'pre_armed_no_breakpoints': 1 if case.get('pre_armed') is not None and not Bset else 0}
     probes.update(probes_extra)
     for t in user.transcript:
         if t[0] == 'cmd':
